@@ -83,12 +83,17 @@ func (c *Ctx) errDiscipline(fn *ssa.Function, match func(*core.Call) bool) (find
 				if !ok || (bo.Op != token.EQL && bo.Op != token.NEQ) {
 					continue
 				}
+				// the operands as they stood when the branch was taken (a phi of the loop body is another value in the next iteration)
+				opX, opY := p.Resolve(bo.X), p.Resolve(bo.Y)
+				if cd.X != nil && cd.Y != nil {
+					opX, opY = cd.X, cd.Y
+				}
 				for _, o := range latest {
-					for _, pair := range [][2]ssa.Value{{bo.X, bo.Y}, {bo.Y, bo.X}} {
-						if !isErrOperandOf(p.Resolve(pair[0]), o.call) {
+					for _, pair := range [][2]ssa.Value{{opX, opY}, {opY, opX}} {
+						if !isErrOperandOf(pair[0], o.call) {
 							continue
 						}
-						if k, isK := p.Resolve(pair[1]).(*ssa.Const); isK && k.Value == nil {
+						if k, isK := pair[1].(*ssa.Const); isK && k.Value == nil {
 							o.tested = true
 							// positive term is (e == nil); Val is its truth value
 							o.isErr = !cd.Val
